@@ -1525,6 +1525,11 @@ func dischargeIndexWith(c *Ctx, s *indexSite, inherited int64) (string, string, 
 			if subj, ok := indexLikeResult(c, call); ok && subj == s.X && want.k <= 1 {
 				return true
 			}
+			if k2, ok := indexLikeResultKey(c, call); ok && k2 == key && want.k <= 1 {
+				if w, _ := writesBetween(c, f, key, s.Ins, []*ssa.BasicBlock{call.Block()}); !w {
+					return true
+				}
+			}
 			// min(a, b) ≤ a and ≤ b: enough that one argument is within the length
 			if args, ok := minLikeArgs(call); ok && lenGEDepth < 3 {
 				lenGEDepth++
@@ -1549,6 +1554,13 @@ func dischargeIndexWith(c *Ctx, s *indexSite, inherited int64) (string, string, 
 				subj, ok1 := indexAPI(ec)
 				if !ok1 {
 					subj, ok1 = indexLikeResult(c, ec)
+				}
+				if !ok1 {
+					if k2, okk := indexLikeResultKey(c, ec); okk && k2 == key {
+						if w, _ := writesBetween(c, f, key, s.Ins, []*ssa.BasicBlock{ec.Block()}); !w {
+							continue
+						}
+					}
 				}
 				if !ok1 || subj != s.X {
 					all = false
@@ -1602,6 +1614,11 @@ func dischargeIndexWith(c *Ctx, s *indexSite, inherited int64) (string, string, 
 				_ = p
 				return "I4", "index supplied by the sort package to its comparator", true
 			}
+		}
+		// … and the Less / Swap methods of a sort.Interface whose Len is the length of what they index
+		if p, ok := s.Index.(*ssa.Parameter); ok && isSortInterfaceMethod(c, f, s.X) {
+			_ = p
+			return "I4", "index supplied by the sort package to Less / Swap of a sort.Interface whose Len() is the length of the indexed value", true
 		}
 		// key of a range over the same string/slice
 		if ex, ok := s.Index.(*ssa.Extract); ok && ex.Index == 1 {
@@ -1720,6 +1737,97 @@ func dischargeIndexWith(c *Ctx, s *indexSite, inherited int64) (string, string, 
 		return "", fmt.Sprintf("cannot show %s ≤ %s ≤ len(%s)", lo, hi, key), false
 	}
 	return "", "unknown construct", false
+}
+
+// isSortInterfaceMethod: f is Less(i, j int) bool or Swap(i, j int) of a type that also has Len() int, the type is only
+// ever used through the sort package (no other caller of Less / Swap in the module), the indexed value x is the
+// receiver itself (or a field / embedded part of it that Len() takes the length of).
+func isSortInterfaceMethod(c *Ctx, f *ssa.Function, x ssa.Value) bool {
+	if f.Signature.Recv() == nil || (f.Name() != "Less" && f.Name() != "Swap") || len(f.Params) != 3 {
+		return false
+	}
+	for _, p := range f.Params[1:] {
+		if !isIntType(p.Type()) {
+			return false
+		}
+	}
+	// no caller inside the module
+	if len(sitesOf(c).sites[f]) > 0 {
+		return false
+	}
+	// the indexed value derives from the receiver
+	root := x
+	path := ""
+	for {
+		switch v := root.(type) {
+		case *ssa.Field:
+			path = fmt.Sprintf(".%d", v.Field) + path
+			root = v.X
+			continue
+		case *ssa.UnOp:
+			if v.Op == token.MUL {
+				if fa, ok := v.X.(*ssa.FieldAddr); ok {
+					path = fmt.Sprintf(".%d", fa.Field) + path
+					root = fa.X
+					continue
+				}
+				root = v.X
+				continue
+			}
+		case *ssa.ChangeType:
+			root = v.X
+			continue
+		}
+		break
+	}
+	// a value receiver spilled into a local (`t0 = local T (p); *t0 = p`)
+	if al, ok := root.(*ssa.Alloc); ok {
+		var stored ssa.Value
+		n := 0
+		for _, r := range *al.Referrers() {
+			if st, ok := r.(*ssa.Store); ok && st.Addr == ssa.Value(al) {
+				stored = st.Val
+				n++
+			}
+		}
+		if n == 1 {
+			root = stored
+		}
+	}
+	if root != ssa.Value(f.Params[0]) {
+		return false
+	}
+	// Len() of the same type returns len of the same part of the receiver
+	ms := c.P.SSA.MethodSets.MethodSet(f.Signature.Recv().Type())
+	for i := 0; i < ms.Len(); i++ {
+		if ms.At(i).Obj().Name() != "Len" {
+			continue
+		}
+		if len(ms.At(i).Index()) > 1 && path != "" {
+			return true // Len is promoted from the embedded part that is indexed
+		}
+		lf := c.P.SSA.MethodValue(ms.At(i))
+		if lf == nil || len(lf.Blocks) == 0 {
+			return false
+		}
+		// a promoted Len (embedded type) is a wrapper: follow it
+		for _, b := range lf.Blocks {
+			r, ok := b.Instrs[len(b.Instrs)-1].(*ssa.Return)
+			if !ok || len(r.Results) != 1 {
+				continue
+			}
+			v := r.Results[0]
+			if call, ok := v.(*ssa.Call); ok {
+				if _, isLen := lenArg(call); isLen {
+					return true // Len() is the length of (a part of) its receiver: the sort package stays below it
+				}
+				if cl := call.Common().StaticCallee(); cl != nil && cl.Name() == "Len" {
+					return true
+				}
+			}
+		}
+	}
+	return false
 }
 
 func isSortComparator(f *ssa.Function) bool {
@@ -1905,18 +2013,22 @@ func paramLowerBound(c *Ctx, p *ssa.Parameter) (int64, bool) {
 // indexLikeResult: a module function whose int result is, on every return, a negative constant or a value known (by the
 // branch facts at that return) to be a valid index of one of its slice/string parameters; returns the argument that
 // parameter is bound to at this call.
+type indexLikeRes struct {
+	idx    int
+	ok     bool
+	suffix string
+}
+
 func indexLikeResult(c *Ctx, call *ssa.Call) (ssa.Value, bool) {
 	g := call.Common().StaticCallee()
 	if g == nil || !c.P.InModule(g) || len(g.Blocks) == 0 || g.Signature.Results().Len() != 1 || !isIntType(g.Signature.Results().At(0).Type()) {
 		return nil, false
 	}
-	type res struct {
-		idx int
-		ok  bool
-	}
+	type res = indexLikeRes
 	r := c.Memo("indexlike:"+g.String(), func() interface{} {
 		ff := Facts(c, g)
 		subject := -1
+		suffix := ""
 		nonneg := 0
 		for _, b := range g.Blocks {
 			ret, ok := b.Instrs[len(b.Instrs)-1].(*ssa.Return)
@@ -1940,29 +2052,56 @@ func indexLikeResult(c *Ctx, call *ssa.Call) (ssa.Value, bool) {
 				}
 			}
 			found := -1
+			sfx := ""
 			for i, p := range g.Params {
 				key := "P:" + p.Name()
-				for _, t := range facts.lenGE[key] {
-					if t.base == v && t.k >= 1 {
-						found = i
+				for k2, ts := range facts.lenGE {
+					if k2 != key && !strings.HasPrefix(k2, key+".") {
+						continue
+					}
+					for _, t := range ts {
+						if t.base == v && t.k >= 1 {
+							found = i
+							sfx = strings.TrimPrefix(k2, key)
+						}
 					}
 				}
 			}
-			if found < 0 || (subject >= 0 && subject != found) {
+			if found < 0 || (subject >= 0 && (subject != found || suffix != sfx)) {
 				return res{}
 			}
 			subject = found
+			suffix = sfx
 			nonneg++
 		}
 		if subject < 0 || nonneg == 0 {
 			return res{}
 		}
-		return res{subject, true}
+		return res{subject, true, suffix}
 	}).(res)
 	if !r.ok || r.idx >= len(call.Common().Args) {
 		return nil, false
 	}
+	if r.suffix != "" {
+		return nil, false // an index of a part of the argument: see indexLikeResultKey
+	}
 	return call.Common().Args[r.idx], true
+}
+
+// indexLikeResultKey: like indexLikeResult, for a helper whose result indexes a part of one of its arguments (a slice
+// field of its receiver): the collection key of that part in the caller.
+func indexLikeResultKey(c *Ctx, call *ssa.Call) (string, bool) {
+	g := call.Common().StaticCallee()
+	if g == nil {
+		return "", false
+	}
+	indexLikeResult(c, call) // fills the memo
+	type res = indexLikeRes
+	r, ok := c.Memo("indexlike:"+g.String(), func() interface{} { return res{} }).(res)
+	if !ok || !r.ok || r.suffix == "" || r.idx >= len(call.Common().Args) {
+		return "", false
+	}
+	return collKey(call.Common().Args[r.idx]) + r.suffix, true
 }
 
 // moduleRange: the range of a module function's int result when every return is a constant or the result of a call
